@@ -36,7 +36,8 @@ EmptyFrame == /\ ~Closed /\ extra < MaxInfo
               /\ frames' = Append(frames, [tag |-> 0, len |-> 0, payload |-> <<>>])
               /\ extra' = extra + 1 /\ UNCHANGED <<sent, rpos, delivered, result>>
 InfoFrame == /\ ~Closed /\ extra < MaxInfo
-             /\ frames' = Append(frames, [tag |-> 2, len |-> 1, payload |-> <<"info">>])
+             /\ \E n \in {0, 1} :      \* an informational frame may be empty as well
+                  frames' = Append(frames, [tag |-> 2, len |-> n, payload |-> IF n = 0 THEN <<>> ELSE <<"info">>])
              /\ extra' = extra + 1 /\ UNCHANGED <<sent, rpos, delivered, result>>
 ErrorFrame == /\ ~Closed
               /\ frames' = Append(frames, [tag |-> 1, len |-> 1, payload |-> <<"msg">>])
